@@ -1,6 +1,7 @@
 (* C15  Failed registrations and failing sources leave the loop intact. *)
 From CV Require Import Base Consts Token PostAction Env Loop.
 From CVP Require Import Loop_frames Seq_lemmas Env_lemmas C09_proofs.
+Import ListNotations.
 Open Scope N_scope.
 
 (* a poller call that fails changes neither the source nor the poller table *)
@@ -24,6 +25,17 @@ Theorem C15_invalid_token_noop : forall s h, halted s = false -> lookup s h = No
   exec_action s (AUpdate h) = emit s (op_line OP_UPDATE h RInvalid) /\
   exec_action s (ARemove h) = emit s (op_line OP_REMOVE h ROk).
 Proof. exact invalid_token_noop. Qed.
+
+(* met by concrete states: a second registration of fd 10 fails and changes nothing; an unregister of an fd that is not in the
+   table fails and changes nothing; and the insertion of a second lifecycle composite over the same fd fails (REGOP not ok, insert
+   -> IoError) without leaving a lifecycle entry behind (the repaired defect F2): the loop goes on with the first source only *)
+Example C15_nonvacuous :
+  let g := mkGen 10 (mkInt true false) Level None false in
+  let e1 := snd (gen_register (en init) g (mkTok 0 0 1)) in
+  let s := run (fun _ => []) (fun _ => []) [CAct (AInsert 1 (SComp true None [g] None)); CAct (AInsert 2 (SComp true None [g] None))] in
+  gen_register e1 g (mkTok 1 0 1) = (false, g, e1) /\ gen_unregister (en init) g = (false, g, en init) /\
+  halted s = false /\ lifecycle s = [mkTok 0 0 0] /\ In (L T_OP [OP_INSERT; 2; res_code RIo]%Z) (trace_of s) /\ quiet s.
+Proof. cbv zeta. split; [reflexivity|split; [reflexivity|split; [reflexivity|split; [reflexivity|split; [vm_compute; do 5 right; left; reflexivity|split; reflexivity]]]]]. Qed.
 
 (* KNOWN FINDING F4 (recorded): an Err from one source drops the rest of the batch. The model reproduces it: the timer
    (deadline 2) is due at phase 1, the composite fails first, the dispatch returns Err, and the timer never fires. *)
